@@ -538,3 +538,25 @@ func fieldsAccessedOutside(c *Ctx, fns []*ssa.Function, typeName string, inside 
 	}
 	return out
 }
+
+// refusedLeavesNoTrace: the duplicate filter is updated only for announcements
+// the allow filter lets through. Shared by C09 (rejected announcements leave
+// the filter untouched) and C08 (an announcement refused by policy must not
+// make a later, accepted announcement of the same head be dropped).
+func refusedLeavesNoTrace(c *Ctx, rule string) {
+	n := 0
+	for _, f := range c.Funcs("announce") {
+		for _, cs := range c.Calls(f.SSA, c.RoleCall("lru.update")) {
+			n++
+			allow := []Alt{
+				{EqNil(Field("allowPeer", Any())), true},
+				{Op("dyncall", "", Field("allowPeer", Any())), true},
+			}
+			c.Check(c.PathsCarry(cs.In.Block(), allow), rule, c.short(cs.Fn.String())+" › cache update › allowed", cs.In.Pos(),
+				"every path to the cache update carries 'no allow filter' or 'allow filter returned true'", "the duplicate cache is updated for announcements the allow filter rejects (or before it is asked): a refused announcement makes the later, accepted announcement of the same head look like a duplicate")
+		}
+	}
+	if n == 0 {
+		c.Unk(rule, "announce › duplicate-filter update", token.NoPos, "not found")
+	}
+}
